@@ -201,6 +201,21 @@ def gen_spec(rng, size=None):
         push(seg_event(rng, s0, jd0))
         if rng.random() < 0.85:
             push(seg_tail(rng, s0, jd0))
+    if rng.random() < 0.08 and n < 260:
+        # The same weather twice at two water-level regimes (a logger re-installed at another
+        # datum): two disjoint bands of levels of exactly the same extent, i.e. exact ties between
+        # groups of intervals that never share a level.  The offset is a multiple of 10 mm, hence of
+        # every 'nice' grid step, so that the copy crosses exactly the shifted grid levels.
+        first_half = [dict(seg, rain=list(seg["rain"]), dz=list(seg["dz"])) for seg in segments]
+        level, lo_z, hi_z = z0, z0, z0
+        for seg in segments:
+            for d in seg["dz"]:
+                level += d
+                lo_z, hi_z = min(lo_z, level), max(hi_z, level)
+        offset = 10.0 * (int((hi_z - lo_z + 40.0 * jd0) / 10.0) + 1) * rng.choice([-1.0, 1.0])
+        push({"kind": "shift", "rain": [0.0], "dz": [_r3(z0 + offset - z)]})
+        for seg in first_half:
+            push(seg)
     end = rng.choices(["dry", "rain", "cut"], weights=[30, 1, 1])[0]
     if end == "dry":
         push(seg_dry(rng, jd0, rng.randint(3, 10), z, z_base))
